@@ -3377,40 +3377,68 @@ def d2_transitions(ck):
             ck.decide(v, rule + '.per-row', mod, site, F, u(ex)[:200], '', 'the 2-D result must be ra.RaggedArray(<columns>, lengths=<transitions per row>)')
             continue
         cols, lens = bnd['array'], bnd['lengths']
-        src = [x for x in ast.walk(site) if isinstance(x, ast.Name) and isinstance(x.ctx, ast.Load)]
-
-        def origin(name_node):
-            """The tuple-unpacking `rows, columns = where(mask)` a name comes from."""
-            for x in src:
-                if isinstance(name_node, ast.Name) and x.id == name_node.id:
-                    ds = fi.defs_of_use(x)
-                    d = next(iter(ds)) if len(ds) == 1 else None
-                    if isinstance(d, ast.Assign) and len(d.targets) == 1 and isinstance(d.targets[0], ast.Tuple) and len(d.targets[0].elts) == 2 \
-                            and all(isinstance(t, ast.Name) for t in d.targets[0].elts) and isinstance(d.value, ast.Call) \
-                            and call_name(d.value) in ('ra.where', 'np.where', 'np.nonzero') and len(d.value.args) == 1 and not d.value.keywords:
-                        return d
+        def component(x):
+            """(statement that evaluates where(<mask>), index of the component) that the expanded operand `x` denotes AT
+            `site`, for the two spellings of "one half of the index tuple of where()":
+              * a name bound by the unpacking `r, c = where(mask)` (the definition reaching `site` is that unpacking);
+              * `t[k]` with a constant k where the only definition of `t` reaching `site` is `t = where(mask)` and the
+                tuple is not touched in place.
+            fi.expand only substitutes a temporary whose operands have the same reaching definitions at its definition and
+            at its use, so every name left in the expanded result denotes its value at `site`."""
+            def where_call(c):
+                return isinstance(c, ast.Call) and call_name(c) in ('ra.where', 'np.where', 'np.nonzero') and len(c.args) == 1 and not c.keywords
+            if isinstance(x, ast.Name):
+                ds = fi.rd.defs_at(site, x.id)
+                d = next(iter(ds)) if len(ds) == 1 else None
+                if isinstance(d, ast.Assign) and len(d.targets) == 1 and isinstance(d.targets[0], ast.Tuple) and len(d.targets[0].elts) == 2 \
+                        and all(isinstance(t, ast.Name) for t in d.targets[0].elts) and where_call(d.value):
+                    names = [t.id for t in d.targets[0].elts]
+                    if names.count(x.id) == 1:
+                        return d, names.index(x.id)
+                return None
+            if isinstance(x, ast.Subscript) and isinstance(x.value, ast.Name) and type(const_value(x.slice)) is int \
+                    and -2 <= const_value(x.slice) < 2:
+                t = x.value.id
+                ds = fi.rd.defs_at(site, t)
+                d = next(iter(ds)) if len(ds) == 1 else None
+                if isinstance(d, ast.Assign) and len(d.targets) == 1 and isinstance(d.targets[0], ast.Name) and d.targets[0].id == t \
+                        and where_call(d.value) and not fi._mutated_in_place(t):
+                    return d, const_value(x.slice) % 2
             return None
-        un = origin(cols)
-        if un is None:
+        cc = component(cols)
+        if cc is None:
             # names hidden inside the expanded `lengths` keep their own use sites: look the unpacking up in the function
             cands = [s for s in walk_local(fn) if isinstance(s, ast.Assign) and len(s.targets) == 1 and isinstance(s.targets[0], ast.Tuple)
                      and isinstance(cols, ast.Name) and cols.id in target_names(s.targets[0]) and fi.cfg.dominates(s, site)]
             ck.missing(rule + '.per-row', 'the array given to RaggedArray (%s) is not one half of `rows, columns = where(<mask>)`%s' % (
                 u(cols)[:60], '' if not cands else ' [%s]' % u(cands[0])[:80]))
             continue
-        rows_n, cols_n = [t.id for t in un.targets[0].elts]
+        un = cc[0]
+        if not fi.cfg.dominates(un, site):
+            ck.missing(rule + '.per-row', '`%s` does not dominate the construction of the ragged result' % u(un)[:80])
+            continue
         difference(un, fi.expand(un.value.args[0]), 2)
-        ck.check(cols.id == cols_n, rule + '.per-row', mod, site, F, u(ex)[:200], 'frame indices (columns) grouped by trajectory (rows)',
+        ck.check(cc[1] == 1, rule + '.per-row', mod, site, F, u(ex)[:200], 'frame indices (columns) grouped by trajectory (rows)',
                  'the ragged result must hold the COLUMN indices (second component of where) grouped by the row counts')
         lb = bind_args(lens, _SIGS['np.bincount']) if isinstance(lens, ast.Call) and call_name(lens) == 'np.bincount' else None
         if lb is None or 'x' not in lb or 'weights' in lb:
             v = ('far', 0, None)                # per-row counts computed some other way ((mask).sum(axis=1), a loop): not understood
             ck.decide(v, rule + '.per-row', mod, site, F, u(lens)[:200], '', 'lengths must be the number of transitions of each row: np.bincount(rows, minlength=<rows>)')
             continue
-        if fi.rd.defs_at(site, rows_n) != {un}:
-            ck.missing(rule + '.per-row', '`%s` is rebound between `%s` and its use' % (rows_n, u(un)[:80]))
+        rc = component(lb['x'])
+        if rc is None and not isinstance(lb['x'], ast.Name):
+            # counts over an expression the rule cannot relate to the index tuple of where(): not shown to differ
+            ck.missing(rule + '.per-row', 'the array counted by np.bincount (%s) is not one half of the index tuple of `%s`' % (
+                u(lb['x'])[:60], u(un)[:80]))
             continue
-        ck.check(isinstance(lb['x'], ast.Name) and lb['x'].id == rows_n, rule + '.per-row', mod, site, F, 'np.bincount(%s, ...)' % u(lb['x']),
+        if rc is None and lb['x'].id in target_names(un.targets[0]):
+            ck.missing(rule + '.per-row', '`%s` is rebound between `%s` and its use' % (lb['x'].id, u(un)[:80]))
+            continue
+        if rc is not None and rc[0] is not un:
+            ck.missing(rule + '.per-row', 'np.bincount counts `%s`, a component of another evaluation of where() than `%s`' % (
+                u(lb['x'])[:60], u(un)[:80]))
+            continue
+        ck.check(rc is not None and rc[1] == 0, rule + '.per-row', mod, site, F, 'np.bincount(%s, ...)' % u(lb['x']),
                  'transitions are counted per trajectory (row index)', 'the counts must be taken over the ROW indices (first component of where)')
         if 'minlength' not in lb:
             ck.bad(rule + '.per-row', mod, site, F, u(lens),
